@@ -82,6 +82,34 @@ func (sc *Scenario) Materialize(root string, resultDir string) ([]string, error)
 	}
 	args := []string{"project=" + p, "plotNr=" + sc.PlotNr, "poligonID=" + sc.Polygon, "fcode=" + sc.Weather.Code,
 		"resultfolder=" + resultDir}
+	if sc.ReducedTablesWithout != "" {
+		// a parameter folder of the project's own: every shipped file, the two texture tables without one texture
+		pdir := "parameter_" + p
+		if err := linkParamFolder(filepath.Join(root, pdir), map[string]bool{"HYPAR.TRU": true, "PARCAP.TRU": true}); err != nil {
+			return nil, err
+		}
+		t := strings.ToUpper(strings.TrimSpace(sc.ReducedTablesWithout))
+		for _, name := range []string{"HYPAR.TRU", "PARCAP.TRU"} {
+			b, err := os.ReadFile(filepath.Join(paramDir, name))
+			if err != nil {
+				return nil, err
+			}
+			var keep []string
+			lines := strings.Split(string(b), "\n")
+			for i := 0; i < len(lines); i++ {
+				l := lines[i]
+				if len(l) >= 3 && strings.ToUpper(strings.TrimSpace(l[0:3])) == t && (i > 0 || name == "PARCAP.TRU") {
+					if name == "PARCAP.TRU" {
+						i++ // the capillary table has two lines per texture
+					}
+					continue
+				}
+				keep = append(keep, l)
+			}
+			os.WriteFile(filepath.Join(root, pdir, name), []byte(strings.Join(keep, "\n")), 0644)
+		}
+		args = append(args, "parameter="+pdir)
+	}
 	if len(sc.AliasCrops) > 0 {
 		// a parameter folder of the project's own: every shipped file plus the parameter files the project supplies
 		pdir := "parameter_" + p
